@@ -316,7 +316,10 @@ def procLine (d : D) (toks : List String) : D :=
           else d
         -- the scan may have seen X_FAILURE just before a queued wait was answered (which turns it into FAILED)
         let ms := (d.s.acts id).state
-        if stateName ms == st || (ms == .failed && ["LINK_FAILURE", "SRC_HOST_FAILURE", "DST_HOST_FAILURE"].contains st) then d
+        -- the harness sees the kernel state at the next log line, which may be a transient one (CANCELED by a dying
+        -- owner before handle_ended_actions turns it into FAILED; X_FAILURE before / FAILED after an answer): what is
+        -- compared is "completed normally" against "ended in failure"; the answers' kinds are compared exactly elsewhere
+        if stateName ms == st || (ms != .done && terminal ms && st != "DONE") then d
         else fail d (.disagree s!"activity {h} state model={stateName (d.s.acts id).state} impl={st}")
   | [date, who, "ret", k, r] =>
     let d := onDate d date
@@ -368,7 +371,9 @@ def procLine (d : D) (toks : List String) : D :=
             else if r.startsWith "ok." then
               match (dropS r 3).toNat? with
               | some sl =>
-                if lookup d.slots (a, sl) == some by_ then d
+                -- several activities of the set may end at the same date: any of them is a legal answer
+                if lookup d.slots (a, sl) == some by_ ||
+                   (match lookup d.slots (a, sl) with | some id => (d.s.acts id).state == .done | none => false) then d
                 else fail d (.disagree s!"a{a} wait_any returned slot {sl}, model says activity {by_}")
               | none => fail d .bad
             else d
@@ -424,23 +429,24 @@ def procLine (d : D) (toks : List String) : D :=
 
 /-- Tie at one date between a state-profile link failure and the end of a communication: `EngineImpl::solve` applies
 the profile event first (`cancel_actions` marks the action FAILED but leaves it in the action heap) and then
-`update_actions_state` finishes the action normally, so the communication completes.  Equal-date events may be
-ordered either way: the completions (`done .. DONE` lines before the next `phase`) are replayed before the fault. -/
-def tieCompletions (rest : List (List String)) (date : String) (d : D) : D :=
+`update_actions_state` finishes the action normally, so the communication completes; `handle_ended_actions` then
+finishes the failed activities first and the completed ones after.  The activities concerned are those with a
+`done .. DONE` line at this date before the next `phase`. -/
+def tieIds (rest : List (List String)) (date : String) (d : D) : List Nat :=
   match rest with
-  | [] => d
+  | [] => []
   | l :: rest' =>
     match l with
-    | [_, "phase"] => d
+    | [_, "phase"] => []
     | [dt, "done", h, "DONE"] =>
-      if dt != date then d else
-      let d := match parseHandle h with
+      if dt != date then [] else
+      let here := match parseHandle h with
         | some key => match lookup d.opAct key with
-          | some id => if (d.s.acts id).kind == .comm && (d.s.acts id).action == some .started then setS d (complete d.s id) else d
-          | none => d
-        | none => d
-      tieCompletions rest' date d
-    | _ => tieCompletions rest' date d
+          | some id => if (d.s.acts id).kind == .comm && (d.s.acts id).action == some .started then [id] else []
+          | none => []
+        | none => []
+      here ++ tieIds rest' date d
+    | _ => tieIds rest' date d
 
 def procLines : List (List String) → D → D
   | [], d => d
@@ -449,7 +455,18 @@ def procLines : List (List String) → D → D
     | [date, "sig", "off", res] =>
       let isProfile := ! d.q.any (fun e => match e with | .ctl false _ _ _ => true | _ => false)
       if isProfile && res.startsWith "l" && d.err.isNone then
-        procLines rest (procLine (tieCompletions rest date (flush (onDate d date))) l)
+        let d := flush (onDate d date)
+        let prot := tieIds rest date d
+        let saved := prot.map (fun id => (id, (d.s.acts id).links))
+        -- the protected comms are not failed by the event ...
+        let d := { d with s := prot.foldl (fun s id => s.setAct id (fun x => { x with links := [] })) d.s }
+        let d := procLine d l
+        -- ... the failed activities are finished first ...
+        let d := if d.s.crashed then d else setS d (handleEnded (d.s.nActs + 1) d.s)
+        -- ... then the completed ones
+        let d := saved.foldl (fun d p =>
+          setS d (complete (d.s.setAct p.1 (fun x => { x with links := p.2 })) p.1)) d
+        procLines rest d
       else procLines rest (procLine d l)
     | _ => procLines rest (procLine d l)
 
